@@ -163,7 +163,6 @@ func printReport(rep *FuncReport, verbose bool, keep string) {
 	}
 }
 
-
 var _ = ssa.NaiveForm
 
 func init() {
